@@ -311,8 +311,16 @@ cases = json.loads(sys.argv[2])
 out = []
 import builtins
 builtins.CANARY = []
+import os, warnings, decimal, locale, signal, gc
+def snapshot():
+    return {"recursionlimit": sys.getrecursionlimit(), "cwd": os.getcwd(), "environ": dict(os.environ), "sys.path": list(sys.path),
+            "warnings.filters": len(warnings.filters), "decimal.prec": decimal.getcontext().prec, "locale": locale.setlocale(locale.LC_ALL),
+            "sigint": repr(signal.getsignal(signal.SIGINT)), "stdout": sys.stdout is sys.__stdout__, "stderr": sys.stderr is sys.__stderr__,
+            "gc": gc.isenabled(), "switchinterval": sys.getswitchinterval(), "excepthook": sys.excepthook is sys.__excepthook__,
+            "builtins": sorted(k for k in vars(builtins) if not k.startswith("__"))}
 for name, src in cases:
     events.clear(); builtins.CANARY.clear()
+    before = snapshot()
     armed[0] = True
     t0 = time.time()
     try:
@@ -323,6 +331,11 @@ for name, src in cases:
     except BaseException as ex:
         res = "CRASH:" + type(ex).__name__ + ": " + str(ex)[:80]
     armed[0] = False
+    after = snapshot()
+    changed = sorted(k for k in before if before[k] != after[k])
+    if changed and not res.startswith("CRASH"):
+        res = "CRASH:interpreter state changed by parse(): " + ", ".join(f"{k}: {str(before[k])[:40]} -> {str(after[k])[:40]}" for k in changed[:3])
+        sys.setrecursionlimit(before["recursionlimit"])
     out.append({"case": name, "result": res, "events": list(events), "canary": list(builtins.CANARY), "ms": int((time.time() - t0) * 1000)})
 print(json.dumps(out))
 '''
@@ -374,6 +387,13 @@ def hostile_cases():
             (f"fault-lcd:{tag}", f"from Reduino.Displays import LCD\nl = LCD(i2c_addr=39, cols={f})\nl.write({f}, {f}, 'x')\nl.progress(0, {f}, {f}, width={f})\nl.brightness({f})\n"),
             (f"fault-call-arg:{tag}", f"def g(a):\n    return a\nw = g({f})\n"), (f"fault-in-function:{tag}", f"xs = [1]\ndef h():\n    xs.append({f})\nh()\n"),
         ]
+    cases += [("mutual-recursion-float-entry", "def a(x):\n    if x < 1:\n        return 0\n    return b(x - 1)\ndef b(x):\n    return a(x / 2)\nr = a(2.5)\n"),
+              ("mutual-recursion-int-then-float", "def a(x):\n    if x < 1:\n        return 0\n    return b(x - 1)\ndef b(x):\n    if x < 1:\n        return 1\n    return a(x - 1)\nr = a(4)\ns = a(2.5)\n"),
+              ("self-recursion-two-argument-types", "def f(x):\n    if x < 1:\n        return 0\n    return f(x / 2) + f(int(x) - 1)\nr = f(5)\n"),
+              ("three-cycle", "def p(x):\n    return q(x)\ndef q(x):\n    return r3(x * 1.5)\ndef r3(x):\n    if x > 100:\n        return x\n    return p(x + 1)\nv = p(1)\n"),
+              ("break-at-top-level", "x = 1\nbreak\n"), ("default-argument", "def f(a=1):\n    return a\ny = f()\n"), ("unknown-melody", "from Reduino.Actuators import Buzzer\nb = Buzzer(8)\nb.melody('nope')\n"),
+              ("fstring-format-spec", "from Reduino.Communication import SerialMonitor\nm = SerialMonitor(9600)\nx = 1.5\nm.write(f'{x:.1f}')\n"),
+              ("long-chained-condition", "x = 1\nif " + " and ".join(["x > 0"] * 300) + ":\n    x = 2\n")]
     cases += [("tuple-too-few-values", "a, b, c = 1, 2\n"), ("tuple-too-many-values", "a, b = 1, 2, 3\n"), ("tuple-from-scalar", "a, b = 5\n"),
               ("swap-length-mismatch", "a = 1\nb = 2\na, b = b, a, a\n")]
     cases += [("noise-1", "\x00\x01\x02 garbage ((("), ("noise-2", "def def def"), ("noise-3", "while True:\n\tx = = 1\n"),
